@@ -78,6 +78,17 @@ def stage (cfg : Cfg) (nodes : List (List Nat)) (cs : List (Nat × Bool)) (count
       ((applyCs (db.map OutN.old) changes).map fun o => match o with | .old d => d.node | .new _ nd _ => nd, freed)
   | _ => none
 
+/-- the panic site the run of the stage ends in (`none`: no panic) -/
+def stagePanic (cfg : Cfg) (nodes : List (List Nat)) (cs : List (Nat × Bool)) (count : Nat) (rev : Bool) (burst : Nat) :
+    Option String :=
+  let db := mkDb nodes
+  let wps := prepareWorkers (look db) (cs.map (·.1)) count
+  let g0 := initG upd cfg db cs wps
+  let order := if rev then (List.range g0.n).reverse else List.range g0.n
+  match runPolicy upd cfg db order burst 400 g0 with
+  | some (.inl site) => some site
+  | _ => none
+
 /-- the specification: the sorted key set with the changes applied -/
 def specKeys (nodes : List (List Nat)) (cs : List (Nat × Bool)) : List Nat :=
   cs.foldl (fun acc c => if c.2 then insertKey c.1 acc else acc.filter (· != c.1)) nodes.flatten
@@ -91,6 +102,12 @@ def csA : List (Nat × Bool) := [(11, false), (12, false), (13, false), (20, fal
 
 def lvlB : List (List Nat) := [[10, 11, 12, 13], [20, 21, 22, 23], [30, 31, 32]]
 def csB : List (Nat × Bool) := [(11, false), (12, false), (13, false)]
+
+/-! ### the geometry of the seeded change `C13-extend-range-high-max`: the first node of the last worker emptied, an
+untouched tail behind it, three successive merges of the left worker's under-full rest into that tail -/
+
+def lvlC : List (List Nat) := [[10, 11, 12, 13], [20, 21], [30, 31, 32, 33], [40, 41, 42, 43], [50, 51, 52, 53], [60, 61]]
+def csC : List (Nat × Bool) := [(11, false), (12, false), (13, false), (20, false), (21, false)]
 
 /-- all `0/1` lists of length `n` (worker picks of a two-worker schedule) -/
 def allPicks : Nat → List (List Nat)
